@@ -148,8 +148,12 @@ func (e *specEnv) resolveGeneric(pk *types.Package, src string) types.Type {
 		return nil
 	}
 	var targs []types.Type
-	if e.x.fi != nil && e.x.fi.Sig != nil {
-		if r := e.x.fi.Sig.Recv(); r != nil {
+	fi := e.x.fi
+	for fi != nil && fi.Lit != nil && fi.Outer != nil {
+		fi = fi.Outer // a literal uses the type parameters of its enclosing function
+	}
+	if fi != nil && fi.Sig != nil {
+		if r := fi.Sig.Recv(); r != nil {
 			rt := r.Type()
 			if pt, ok := rt.(*types.Pointer); ok {
 				rt = pt.Elem()
@@ -161,8 +165,8 @@ func (e *specEnv) resolveGeneric(pk *types.Package, src string) types.Type {
 			}
 		}
 		if len(targs) == 0 {
-			for i := 0; i < e.x.fi.Sig.TypeParams().Len(); i++ {
-				targs = append(targs, e.x.fi.Sig.TypeParams().At(i))
+			for i := 0; i < fi.Sig.TypeParams().Len(); i++ {
+				targs = append(targs, fi.Sig.TypeParams().At(i))
 			}
 		}
 	}
